@@ -26,8 +26,8 @@ struct Op {
     std::vector<unsigned> c;   // coordinate operand (3)
     int v = 0;
 };
-const char * KINDS[] = {"construct", "default_construct", "write", "copy_construct", "move_construct", "copy_assign", "move_assign", "convert_copy", "convert_move", "dump_load", "destroy"};
-constexpr unsigned NKINDS = 11;
+const char * KINDS[] = {"construct", "default_construct", "write", "copy_construct", "move_construct", "copy_assign", "move_assign", "convert_copy", "convert_move", "dump_load", "destroy", "fill"};
+constexpr unsigned NKINDS = 12;
 struct Case {
     unsigned slots = 4;
     std::vector<Op> ops;
@@ -72,8 +72,9 @@ using T3 = cb::strided<cv::size3, cb::array<cv::double2>>;
 using T4 = cb::nearest_neighbour<cb::strided<cv::size2, F1>>;
 using T5 = cb::affine<cb::nearest_neighbour<cb::strided<cv::size2, F1>>>;
 using T6 = cb::array<cv::float2>;
-constexpr unsigned NTYPES = 7;
-const char * TNAMES[] = {"strided<size2,array<float1>>", "morton<size2,array<float1>>", "hilbert<size2,array<float1>>", "strided<size3,array<double2>>", "nearest_neighbour<strided<size2,array<float1>>>", "affine<nearest_neighbour<strided<size2,array<float1>>>>", "array<float2>"};
+using T7 = cb::strided<cv::size2, cb::array<cv::float3>>;   // 3-component cells, up to 24x24: more than 1024 scalars
+constexpr unsigned NTYPES = 8;
+const char * TNAMES[] = {"strided<size2,array<float1>>", "morton<size2,array<float1>>", "hilbert<size2,array<float1>>", "strided<size3,array<double2>>", "nearest_neighbour<strided<size2,array<float1>>>", "affine<nearest_neighbour<strided<size2,array<float1>>>>", "array<float2>", "strided<size2,array<float3>>"};
 
 // model of one field: extents (up to 3), M components per cell, values as doubles (exactly representable)
 struct Model {
@@ -128,6 +129,8 @@ template <>
 struct traits<T5> : traits_base<5, T5, 2, 1> {};
 template <>
 struct traits<T6> : traits_base<6, T6, 1, 2> {};
+template <>
+struct traits<T7> : traits_base<7, T7, 2, 3> {};
 
 template <class B>
 covfie::field<B> construct(const std::vector<uint64_t> & ext)
@@ -141,7 +144,7 @@ covfie::field<B> construct(const std::vector<uint64_t> & ext)
         for (size_t k = 0; k < N; ++k) {
             e[k] = ext[k];
         }
-        if constexpr (std::is_same_v<B, T0> || std::is_same_v<B, T3>) {
+        if constexpr (std::is_same_v<B, T0> || std::is_same_v<B, T3> || std::is_same_v<B, T7>) {
             return covfie::field<B>(pack(e));
         } else if constexpr (std::is_same_v<B, T1> || std::is_same_v<B, T2>) {
             covfie::field<T0> s(pack(e));
@@ -242,7 +245,8 @@ auto with_type(unsigned t, F && f)
         case 3: return f(std::type_identity<T3>{});
         case 4: return f(std::type_identity<T4>{});
         case 5: return f(std::type_identity<T5>{});
-        default: return f(std::type_identity<T6>{});
+        case 6: return f(std::type_identity<T6>{});
+        default: return f(std::type_identity<T7>{});
     }
 }
 // conversions exist between the three layouts of the same array type
@@ -276,6 +280,7 @@ std::vector<uint64_t> decode_ext(unsigned type, const std::vector<unsigned> & e)
     switch (type % NTYPES) {
         case 3: return {1 + e[0] % 3u, 1 + e[1] % 4u, 1 + e[2] % 2u};
         case 6: return {1 + e[0] % 9u};
+        case 7: return {1 + (e[0] * 3 + e[2]) % 24u, 1 + (e[1] * 3 + e[2]) % 24u};
         default: return {1 + e[0] % 5u, 1 + e[1] % 5u};
     }
 }
@@ -328,7 +333,7 @@ Verdict interpret(const Case & c, RunInfo & info)
                 Model m;
                 m.type = o.t % NTYPES;
                 m.ext = ext;
-                m.M = (m.type == 3 || m.type == 6) ? 2 : 1;
+                m.M = (m.type == 3 || m.type == 6) ? 2 : (m.type == 7 ? 3 : 1);
                 m.val.assign(m.cells() * m.M, 0.0);
                 p.model[a] = m;
                 copy_partner[a] = -1;
@@ -449,6 +454,31 @@ Verdict interpret(const Case & c, RunInfo & info)
                 }
                 break;
             }
+            case 11: {   // fill(a, v): write every cell through a view (cell-dependent values)
+                if (!p.impl[a] || !p.model[a]) {
+                    done = false;
+                    break;
+                }
+                Model & m = *p.model[a];
+                const uint64_t cells = m.cells();
+                for (uint64_t r = 0; r < cells; ++r) {
+                    std::vector<uint64_t> cc(m.ext.size());
+                    uint64_t q = r;
+                    for (size_t k = m.ext.size(); k-- > 0;) {
+                        cc[k] = q % m.ext[k];
+                        q /= m.ext[k];
+                    }
+                    for (unsigned comp = 0; comp < m.M; ++comp) {
+                        double v = (m.type == 3) ? double(o.v) + double(r) / 4.0 + comp : double(float(double(o.v) + double(r % 4096) / 4.0 + comp));
+                        p.impl[a]->write(cc, comp, v);
+                        m.val[r * m.M + comp] = v;
+                    }
+                }
+                if (copy_partner[a] >= 0) {
+                    info.write_to_copy_then_read_other = true;
+                }
+                break;
+            }
             default: {   // destroy(a)
                 if (!p.impl[a]) {
                     done = false;
@@ -524,7 +554,7 @@ rc::Gen<Op> gen_op(unsigned ntypes)
 {
     return rc::gen::map(
         rc::gen::tuple(
-            rc::gen::weightedElement<unsigned>({{4, 0}, {1, 1}, {6, 2}, {3, 3}, {2, 4}, {3, 5}, {2, 6}, {2, 7}, {1, 8}, {2, 9}, {1, 10}}),
+            rc::gen::weightedElement<unsigned>({{4, 0}, {1, 1}, {6, 2}, {3, 3}, {2, 4}, {3, 5}, {2, 6}, {2, 7}, {1, 8}, {2, 9}, {1, 10}, {2, 11}}),
             in_range<unsigned>(0, 3),
             in_range<unsigned>(0, 3),
             in_range<unsigned>(0, ntypes - 1),
@@ -674,7 +704,7 @@ extern "C" int LLVMFuzzerTestOneInput(const uint8_t * data, size_t size)
     c.slots = 4;
     for (size_t i = 0; i + 8 <= size && c.ops.size() < 80; i += 8) {
         Op o;
-        o.kind = data[i] % NKINDS;
+        o.kind = data[i] % NKINDS;   // includes "fill"
         o.a = data[i + 1] & 3;
         o.b = (data[i + 1] >> 2) & 3;
         o.t = data[i + 2] % NTYPES;
